@@ -142,6 +142,7 @@ static void puthex (FILE *f, const unsigned char *p, size_t n)
 }
 
 static const char *msgs[EEAV_MAX];
+static int *g_msg_rc;        /* run_history: per-object record of the last conversion result */
 static void init_msgs (void)
 {
     eav_t e; memset (&e, 0, sizeof e);
@@ -156,7 +157,9 @@ static void putmsg (FILE *f, const char *m)
     if (m == NULL) { fputs ("NULL", f); return; }
     for (int i = 0; i < EEAV_MAX; i++)
         if (msgs[i] == m) { fprintf (f, "m%d", i); return; }
-    if (strcmp (m, idn2_strerror (last_idn_rc)) == 0) { fprintf (f, "idn:#%d", last_idn_rc); return; }
+    /* the code whose text this should be: the last conversion result seen by the object the message is asked of */
+    int want = g_msg_rc ? *g_msg_rc : last_idn_rc;
+    if (strcmp (m, idn2_strerror (want)) == 0) { fprintf (f, "idn:#%d", want); return; }
     fputs ("idn:?", f);
     puthex (f, (const unsigned char *) m, strlen (m));
 }
@@ -249,12 +252,14 @@ static void run_history (FILE *out, char *script)
     memset (eav2, 0xA5, sizeof *eav2);
     char *save = NULL;
     int first = 1;
+    int obj_rc[2] = { last_idn_rc, last_idn_rc };
     for (char *op = strtok_r (script, ";", &save); op; op = strtok_r (NULL, ";", &save)) {
         if (!first) fputc (';', out);
         first = 0;
         /* two independent objects: an op prefixed with `2` addresses the second one */
         eav_t *eav = eav1;
-        if (op[0] == '2') { eav = eav2; op++; }
+        g_msg_rc = &obj_rc[0];
+        if (op[0] == '2') { eav = eav2; op++; g_msg_rc = &obj_rc[1]; }
         switch (op[0]) {
         case 'i': eav_init (eav); fputc ('i', out); break;
         case 'r': eav->rfc = (EAV_RFC) mode_rfc (atoi (op + 1)); fputc ('r', out); break;
@@ -278,6 +283,7 @@ static void run_history (FILE *out, char *script)
             expect_domain_of (em);
             int ret = eav_is_email (eav, em, n);
             g_expect_dom = NULL;
+            *g_msg_rc = last_idn_rc;
             fprintf (out, "e%d %d ", ret, eav->errcode);
             putmsg (out, eav_errstr (eav));
             fputc (' ', out);
@@ -294,6 +300,7 @@ static void run_history (FILE *out, char *script)
 #endif
     free (eav1); free (eav2);
     inject_rc = 0;
+    g_msg_rc = NULL;
 }
 
 int main (int argc, char **argv)
